@@ -79,6 +79,40 @@ def run_cell_codec(prog, rep):
                     if mc and not mc[0].id < g.id:
                         probs.append('the Variant is set before the bytes are copied')
             rule.check(not probs, key, rep.where(stmts[0]) if stmts and stmts[0] is not None else rep.where(sw), f.label(), '%s via %s %s' % (e, vt, vn), '; '.join(probs))
+    # Janus(dst, cells): the member a cell is written to is named by the cell (its name, or member_name(its col)), never by its position in the list
+    jc = [f for f in prog.fns('nix::hdf5::Janus::Janus') if f.body is not None and 'Cell' in f.params[1]['type']]
+    if len(jc) != 1:
+        raise AnalysisBroken('anchor vanished: Janus(dst, cells)')
+    jc = jc[0]
+    sem = Sem(prog)
+    fl = Flow(sem, jc)
+    ins = [c for c in jc.calls(name='insert') if len(real_args(c)) == 3]
+    probs = []
+    if not ins:
+        probs.append('no member is inserted')
+    else:
+        org = fl.origins(real_args(ins[0])[0])
+        cellvars = [v for v in sem.local_vars(jc).values() if 'Cell' in (v.get('type') or '') and 'vector' not in (v.get('type') or '')]
+        cname = cellvars[0].get('name') if cellvars else None
+        for o in org:
+            if o[0] == 'call' and o[1] == 'member_name':
+                a = real_args(o[2])[0].src(30).replace(' ', '')
+                aorg = fl.origins(real_args(o[2])[0])
+                from_cell = any(x[0] == 'field' for x in aorg) or a == '%s.col' % cname
+                idx_leak = [x for x in aorg if x[0] == 'lit' or (x[0] == 'call' and x[1] in ('size', 'member_count'))]
+                defs_ok = a == '%s.col' % cname
+                if not defs_ok:
+                    # follow a local: every definition must be the cell's own column
+                    t = term(unwrap(real_args(o[2])[0]))
+                    v = sem.local_vars(jc).get(t[1]) if t[0] == 'v' else None
+                    init = v.c[0].src(60).replace(' ', '') if v is not None and v.c and v.c[0] is not None else ''
+                    defs_ok = init == '%s.col' % cname
+                if not defs_ok:
+                    probs.append('the member name is looked up with %s, which is not the cell\'s own column: a complete list of cells in non-schema order is written to the wrong columns' % real_args(o[2])[0].src(30))
+        names = [x for x in org if x[0] == 'call' and x[1] in ('member_name', 'haveName')]
+        if not any(x[1] == 'member_name' for x in names):
+            probs.append('index-addressed cells are not resolved through member_name')
+    rule.check(not probs, 'Janus(cells)|member-of-cell', rep.where(jc), jc.label(), 'member = cell.name or member_name(cell.col)', '; '.join(sorted(set(probs))))
     # copyData(v, i): offset and type of the same member i
     ci = [f for f in prog.fns('nix::hdf5::Janus::copyData') if len(f.params) == 2][0]
     mo = [c for c in ci.calls(name='member_offset')]
@@ -307,7 +341,14 @@ def run_io(prog, rep):
     f = prog.fn(DF + '::writeRow')
     src = lam_src(f)
     m = re.search(r'(\w+) = (?:\([\w ]+\))?\s*(\w+)\+\+', src)
-    okw = m is not None and ('member_name(%s)' % m.group(1)) in src and re.search(r'member_name\(%s\),v' % m.group(1), src.replace(' ', '')) is not None
+    flat = src.replace(' ', '')
+    okw = m is not None and ('member_name(%s)' % m.group(1)) in src and re.search(r'member_name\(%s\),v' % m.group(1), flat) is not None
+    if not okw:
+        # index-addressed cells: Cell{k, v} with k = i++ (the cell carries the member index instead of its name)
+        m2 = re.search(r'Cell\((?:\(unsignedint\))?(\w+)\+\+,v\)', flat)
+        if m2:
+            m = re.match(r'()(.*)', m2.group(1))
+            okw = True
     iv = [v for v in sem.local_vars(f).values() if m is not None and v.get('name') == m.group(2)]
     okw = okw and bool(iv) and term(iv[0].c[0]) == ('k', 0)
     tr = [c for c in f.calls(name='transform')]
